@@ -109,6 +109,12 @@ def default_for(engine, ty):
         return IV(0, t)
     if t == 'bool':
         return BV(False)
+    if t.startswith('Option<'):
+        return mk_option(False, ty=t)
+    if t.startswith('Vec<'):
+        return VecV([])
+    if t == 'String':
+        return Opaque('""')
     d = engine.env.default_of(engine, t)
     if d is not None:
         return d
@@ -327,6 +333,8 @@ def std_trait(engine, st, ty, tyb, tb, method, args, dest_ty, trait=None):
         if isinstance(inner, VecV):
             return VecV([copy_value(x) for x in inner.items], inner.ty)
         return copy_value(inner)
+    if tb == 'Default' and method == 'default' and tyb == 'String':
+        return Opaque('""')
     if tb == 'Default' and method == 'default':
         try:
             return default_for(engine, ty)
@@ -389,6 +397,16 @@ def std_trait(engine, st, ty, tyb, tb, method, args, dest_ty, trait=None):
     if tb == 'Ord' and method == 'cmp' and isinstance(deref_all(args[0]), IV):
         a, b = deref_all(args[0]), deref_all(args[1])
         return EnumV('Ordering', zs(z3.If(a.t < b.t, -1, z3.If(a.t == b.t, 0, 1))), {})
+    if tb in ('ToString', 'ToOwned') and method in ('to_string', 'to_owned'):
+        v = deref_all(args[0])
+        return v if isinstance(v, Opaque) else Opaque(str(v))
+    if tyb == 'String' and tb == 'Default':
+        return Opaque('""')
+    if tyb in ('String', 'str') and tb == 'PartialEq' and method in ('eq', 'ne'):
+        a, b = deref_all(args[0]), deref_all(args[1])
+        if isinstance(a, Opaque) and isinstance(b, Opaque):
+            t = a.name == b.name
+            return BV(t if method == 'eq' else not t)
     if tb == 'From' and method == 'from':
         return args[0]
     if tb == 'Into' and method == 'into':
@@ -453,7 +471,7 @@ def iterator_method(engine, st, method, args, dest_ty):
         return IterV(it.items + other.items)
     if method == 'copied' or method == 'cloned':
         return IterV([copy_value(deref_all(x)) if isinstance(x, RefV) else x for x in it.items])
-    if method == 'count':
+    if method in ('count', 'len'):
         return IV(len(it.items))
     if method == 'collect':
         return VecV(list(it.items))
@@ -626,6 +644,10 @@ def std_path(engine, st, name, args, dest_ty):
         raise Inconclusive(f'hash container call {name}')
     if name in ('std::mem::drop', 'drop', 'core::mem::drop'):
         return UnitV()
+    if name.endswith('String::new') or name == 'String::default':
+        return Opaque('""')
+    if name.endswith('str>::as_str') or name.endswith('String::as_str'):
+        return args[0]
     if name.endswith('vec::from_elem'):
         n = args[1].concrete()
         if n is None:
@@ -738,6 +760,11 @@ def option_method(engine, st, method, args, dest_ty):
             return mk_option(False, ty=dest_ty)
         r = engine.call_closure(st, args[1], [RefV(o, (1, 0))])
         return o if engine.split_bool(st, r.t) else mk_option(False, ty=dest_ty)
+    if method == 'take':
+        taken = EnumV(o.ty or dest_ty, o.discr, {k: list(v) for k, v in o.payload.items()})
+        o.discr = z3.IntVal(0)
+        o.payload = {}
+        return taken
     if method == 'iter':
         some = engine.split_bool(st, opt_is_some(o))
         return IterV([RefV(o, (1, 0))] if some else [])
